@@ -13,18 +13,18 @@ import (
 
 // Abstract value (mirrors Coq's Codec.Schema.value)
 type Val struct {
-	K       string          `json:"k"` // int long float double bool str bytes enum fixed rec union arr map
-	Z       int64           `json:"z,omitempty"`
-	Bits    uint64          `json:"bits,omitempty"`
-	B       bool            `json:"b,omitempty"`
-	S       string          `json:"-"`
-	SHex    string          `json:"s,omitempty"` // S printed for JSON (quoted Go string)
-	NilColl bool            `json:"nil,omitempty"` // bytes/arr/map held as nil rather than empty (same abstract value)
-	Incs    []*Val          `json:"incs,omitempty"`
-	Fields  []*Val          `json:"fields,omitempty"` // nil entry = None
-	Items   []*Val          `json:"items,omitempty"`
-	Keys    []string        `json:"-"`
-	KeysQ   []string        `json:"keys,omitempty"`
+	K       string   `json:"k"` // int long float double bool str bytes enum fixed rec union arr map
+	Z       int64    `json:"z,omitempty"`
+	Bits    uint64   `json:"bits,omitempty"`
+	B       bool     `json:"b,omitempty"`
+	S       string   `json:"-"`
+	SHex    string   `json:"s,omitempty"`   // S printed for JSON (quoted Go string)
+	NilColl bool     `json:"nil,omitempty"` // bytes/arr/map held as nil rather than empty (same abstract value)
+	Incs    []*Val   `json:"incs,omitempty"`
+	Fields  []*Val   `json:"fields,omitempty"` // nil entry = None
+	Items   []*Val   `json:"items,omitempty"`
+	Keys    []string `json:"-"`
+	KeysQ   []string `json:"keys,omitempty"`
 }
 
 func (v *Val) fixJSON() *Val {
